@@ -210,6 +210,10 @@ impl Layout {
         self.start_to_reserved.remove(&start)
     }
 
+    pub fn has_pending_holes(&self) -> bool {
+        !self.pending_holes.is_empty()
+    }
+
     pub fn promote_pending_holes(&mut self, name: &str) {
         let count = self.pending_holes.len();
         #[cfg(anydb_verif)]
